@@ -37,7 +37,8 @@ TRUST = [
 NS = [1, 2, 3, 5]
 DDM_MENU = [(2.0, 3.0), (1.0, 1.0), (1.0, 2.0), (0.5, 1.0), (2.0, 2.0), (0.0, 1.0), (0.5, 0.75), (3.0, 2.0)]
 EDDM_MENU = [(0.95, 0.9), (1.0, 1.0), (1.0, 0.5), (0.75, 0.5), (1.0, 0.9), (0.5, 0.25)]
-STEPD_MENU = [(0.05, 0.003), (0.5, 0.25), (0.25, 0.05), (1.0, 0.5), (0.05, 0.0)]
+# incl. warning level stricter than the drift level (legal: the drift test comes first, a warning is then impossible)
+STEPD_MENU = [(0.05, 0.003), (0.5, 0.25), (0.25, 0.05), (1.0, 0.5), (0.05, 0.0), (0.0, 0.05), (0.003, 0.25), (0.25, 0.5)]
 
 
 # ---------------------------------------------------------------- critical values for STEPD
@@ -344,6 +345,7 @@ def run(ctx):
                 Z_OF_ALPHA[pa], Z_OF_ALPHA[pb] = min(za, zb), max(za, zb)
                 configs["stepd"].append((n, pa, pb))
                 configs["stepd"].append((n, pa, pa))
+                configs["stepd"].append((n, pb, pa))      # warning stricter than drift
     ctx.extra["configurations"] = {k: len(v) for k, v in configs.items()}
 
     boundary = {}
@@ -368,7 +370,7 @@ def run(ctx):
     n_long = 8 if ctx.quick else 40
     long_cfgs = {"ddm": [(30, 2.0, 3.0), (10, 1.5, 2.5), (50, 2.0, 3.0)],
                  "eddm": [(30, 0.95, 0.9), (10, 0.9, 0.8), (15, 0.98, 0.95)],
-                 "stepd": [(30, 0.05, 0.003), (10, 0.1, 0.01), (50, 0.05, 0.003)]}
+                 "stepd": [(30, 0.05, 0.003), (10, 0.1, 0.01), (50, 0.05, 0.003), (20, 0.0, 0.01)]}
     total_d = {}
     for i in range(n_long):
         n = int(rng.integers(1500, 5001))
